@@ -108,6 +108,70 @@ Section TransferProofs.
       intros y. apply Hzero. lia.
   Qed.
 
+  (* ---- the END POINT is FAS-consistent too (seeded C10-h): on node sets whose last node is the right end
+     (weights = last row of Q; the controller requires it for PFASST) and with a time restriction whose last row
+     picks the last fine node (nested right ends, a table fact validated in C11), the coarse end point computed
+     right after restriction by the collocation update  u0 + dt sum_m w_m f_m + tau_M  is the space-restricted fine
+     end point — with or without an inherited fine tau. *)
+  Variable wf wc : nat -> K.
+  Notation endp_f := (end_point kO kadd kmul Mf dtf wf np true true).
+  Notation endp_c := (end_point kO kadd kmul Mc dtc wc np true true).
+
+  Lemma sumf_unit (g : nat -> K) m :
+    1 <= m -> sumf (fun j => (if Nat.eqb j m then kI else kO) *! g j) 1 m = g m.
+  Proof.
+    intros Hm. destruct m as [|n]; [lia|].
+    rewrite (sumf_snoc kO kI kadd kmul ksub kopp Rth). change (1 + n) with (S n).
+    rewrite Nat.eqb_refl.
+    rewrite (sumf_ext kO kadd _ (fun _ => kO) 1 n).
+    - rewrite (sumf_zero kO kI kadd kmul ksub kopp Rth). ring.
+    - intros j Hj. replace (Nat.eqb j (S n)) with false by (symmetry; apply Nat.eqb_neq; lia). ring.
+  Qed.
+
+  Lemma end_point_is_defect_plus_last {X : Type} M dt (Q : nat -> nat -> K) (w : nat -> K)
+        (u : nat -> X -> K) (f : nat -> nat -> X -> K) (tau : nat -> option (X -> K)) (x : X) :
+    (forall j, 1 <= j <= M -> w j = Q M j) ->
+    end_point kO kadd kmul M dt w np true true u f tau x
+    = residual_vec kO kadd kmul ksub M dt Q np u f tau M x +! u M x.
+  Proof.
+    intros Hw. unfold end_point, residual_vec, integrate. cbn [andb negb].
+    assert (E : sumf (fun j => vscale kmul (dt *! w j) (ftot kO kadd np (f j)) x) 1 M
+                = sumf (fun j => vscale kmul (dt *! Q M j) (ftot kO kadd np (f j)) x) 1 M).
+    { apply (sumf_ext kO kadd). intros j Hj. unfold vscale. rewrite Hw by lia. reflexivity. }
+    destruct (tau M) as [tm|]; unfold vadd, vsub;
+      rewrite !(accum_spec kO kI kadd kmul ksub kopp Rth); rewrite E; unfold vzero; ring.
+  Qed.
+
+  Theorem coarse_end_point_is_restricted Fu Ff Ftau :
+    (forall m, 1 <= m <= Mf -> (Ftau 1 = None <-> Ftau m = None)) ->
+    1 <= Mf -> 1 <= Mc ->
+    (forall j, 1 <= j <= Mf -> wf j = Qf Mf j) -> (forall j, 1 <= j <= Mc -> wc j = Qc Mc j) ->
+    (forall m, 1 <= m <= Mf -> Rcoll Mc m = if Nat.eqb m Mf then kI else kO) ->
+    (forall a b : Vf, (forall y, a y = b y) -> forall x, Rs a x = Rs b x) ->
+    let G := restrict Fu Ff Ftau in
+    forall x, endp_c (Gu G) (Gf G) (Gtau G) x = Rs (endp_f Fu Ff Ftau) x.
+  Proof.
+    intros Htau HMf HMc Hwf Hwc Hunit Rs_ext G x.
+    assert (Hrow : sumf (fun m => Rcoll Mc m) 1 Mf = kI).
+    { rewrite (sumf_ext kO kadd _ (fun j => (if Nat.eqb j Mf then kI else kO) *! kI) 1 Mf).
+      - apply (sumf_unit (fun _ => kI)). exact HMf.
+      - intros j Hj. rewrite Hunit by lia. ring. }
+    rewrite (end_point_is_defect_plus_last Mc dtc Qc wc _ _ _ x Hwc).
+    unfold G. rewrite (coarse_defect_is_restricted_fine_defect Fu Ff Ftau Htau Mc ltac:(lia) Hrow x).
+    rewrite (sumf_ext kO kadd _ (fun j => (if Nat.eqb j Mf then kI else kO) *! Rs (resid_f Fu Ff Ftau j) x) 1 Mf)
+      by (intros j Hj; rewrite Hunit by lia; reflexivity).
+    rewrite (sumf_unit (fun j => Rs (resid_f Fu Ff Ftau j) x) Mf HMf).
+    unfold Transfer.restrict. cbn [Gu].
+    replace (Nat.eqb Mc 0) with false by (symmetry; apply Nat.eqb_neq; lia).
+    rewrite rcomb_spec.
+    rewrite (sumf_ext kO kadd _ (fun j => (if Nat.eqb j Mf then kI else kO) *! Rs (Fu j) x) 1 Mf)
+      by (intros j Hj; rewrite Hunit by lia; reflexivity).
+    rewrite (sumf_unit (fun j => Rs (Fu j) x) Mf HMf).
+    rewrite (Rs_ext (endp_f Fu Ff Ftau) (vadd kadd (resid_f Fu Ff Ftau Mf) (Fu Mf))).
+    - rewrite Rs_add. reflexivity.
+    - intros y. unfold vadd. apply (end_point_is_defect_plus_last Mf dtf Qf wf Fu Ff Ftau y Hwf).
+  Qed.
+
   (* prolongation adds the interpolated coarse CORRECTION: if the coarse sweeps did not change the
      coarse values, the fine values are unchanged *)
   Theorem prolong_zero_correction (G : @coarse K Xc) (Fu : nat -> Vf) :
